@@ -2,13 +2,16 @@ package props
 
 import (
 	"bytes"
+	"context"
 	"encoding/base64"
 	"errors"
 	"fmt"
 	"io"
 	"math/rand/v2"
+	"os"
 	"sort"
 	"strings"
+	"syscall"
 	"testing/iotest"
 
 	"github.com/ipfs/go-cid"
@@ -65,6 +68,37 @@ type faultReader struct {
 	pos   int
 	mode  string
 	chunk int
+	err   error // the fault to report (errInjected if nil)
+	fired bool
+}
+
+// c18Faults: what a failing stream may report. Every one of them is a failure (none is io.EOF).
+var c18Faults = []error{errInjected, io.ErrUnexpectedEOF, io.ErrClosedPipe, os.ErrDeadlineExceeded, context.Canceled, io.ErrNoProgress, fmt.Errorf("read tcp: %w", syscall.ECONNRESET)}
+
+func (f *faultReader) fault() error {
+	f.fired = true
+	if f.err != nil {
+		return f.err
+	}
+	return errInjected
+}
+
+// zeroReader interleaves (0, nil) reads - which io.Reader permits and callers must treat as
+// "nothing happened" - with short reads.
+type zeroReader struct {
+	r io.Reader
+	i int
+}
+
+func (z *zeroReader) Read(p []byte) (int, error) {
+	z.i++
+	if z.i%3 != 0 {
+		return 0, nil
+	}
+	if len(p) > 3 {
+		p = p[:3]
+	}
+	return z.r.Read(p)
 }
 
 func (f *faultReader) Read(p []byte) (int, error) {
@@ -76,7 +110,7 @@ func (f *faultReader) Read(p []byte) (int, error) {
 		if f.mode == "cut" {
 			return 0, io.EOF
 		}
-		return 0, errInjected
+		return 0, f.fault()
 	}
 	n := len(p)
 	if f.chunk > 0 && n > f.chunk {
@@ -88,7 +122,7 @@ func (f *faultReader) Read(p []byte) (int, error) {
 	copy(p, f.data[f.pos:f.pos+n])
 	f.pos += n
 	if f.pos == f.k && f.mode == "errN" {
-		return n, errInjected
+		return n, f.fault()
 	}
 	return n, nil
 }
@@ -337,10 +371,11 @@ func runC18(w *mon.W) {
 			}
 			// chunkings
 			chunkers := map[string]func() io.Reader{
-				"one-byte": func() io.Reader { return iotest.OneByteReader(bytes.NewReader(a.data)) },
-				"half":     func() io.Reader { return iotest.HalfReader(bytes.NewReader(a.data)) },
-				"data-err": func() io.Reader { return iotest.DataErrReader(bytes.NewReader(a.data)) },
-				"random":   func() io.Reader { return &randChunkReader{bytes.NewReader(a.data), r} },
+				"one-byte":   func() io.Reader { return iotest.OneByteReader(bytes.NewReader(a.data)) },
+				"half":       func() io.Reader { return iotest.HalfReader(bytes.NewReader(a.data)) },
+				"data-err":   func() io.Reader { return iotest.DataErrReader(bytes.NewReader(a.data)) },
+				"random":     func() io.Reader { return &randChunkReader{bytes.NewReader(a.data), r} },
+				"zero-reads": func() io.Reader { return &zeroReader{r: bytes.NewReader(a.data)} },
 			}
 			for cname, mk := range chunkers {
 				got := api.f(mk())
@@ -359,65 +394,91 @@ func runC18(w *mon.W) {
 			// fault enumeration at every offset
 			for k := 0; k <= len(a.data); k++ {
 				for _, mode := range []string{"err0", "errN", "cut"} {
-					if k == len(a.data) && mode != "err0" {
-						continue // errN at the end is DataErrReader with a non-EOF error; cut at len is no fault
+					if k == len(a.data) && mode == "cut" {
+						continue // a cut at the end is no fault
 					}
 					if mode == "errN" && k == 0 {
 						continue
 					}
-					fr := &faultReader{data: a.data, k: k, mode: mode, chunk: []int{0, 1, 7, 64}[(k+ai)%4]}
-					got := api.f(fr)
-					w.Eval(1)
-					w.Cover("read-fault/" + api.name + "/" + mode)
-					if k > 0 && k < len(a.data) {
-						w.Distinct(ai, api.name, mode, k)
+					// the kind of fault rotates with the offset; at the very end (every byte was
+					// delivered, then the stream fails instead of ending) and in the middle all kinds are tried
+					flavours := []error{c18Faults[(k+ai)%len(c18Faults)]}
+					if mode == "cut" {
+						flavours = []error{nil}
+					} else if k == len(a.data) || k == len(a.data)/2 || k == len(a.data)-1 {
+						flavours = c18Faults
 					}
-					if got.err != nil {
-						continue
-					}
-					// success: only legitimate for a CAR cut on a section boundary (after the header)
-					legit := false
-					if mode == "cut" && (a.kind == "car" || a.kind == "car64") {
-						dk := k
-						ok := true
-						if a.kind == "car64" {
-							if k%4 != 0 {
-								ok = false
-							} else if dec, err := base64.StdEncoding.DecodeString(string(a.data[:k])); err == nil {
-								dk = len(dec)
-							} else {
-								ok = false
+					for _, fl := range flavours {
+						fr := &faultReader{data: a.data, k: k, mode: mode, chunk: []int{0, 1, 7, 64}[(k+ai)%4], err: fl}
+						got := api.f(fr)
+						w.Eval(1)
+						w.Cover("read-fault/" + api.name + "/" + mode)
+						if mode != "cut" {
+							if !fr.fired {
+								// the decoder stopped reading before the fault position: nothing failed
+								w.Count("read-fault-not-reached", 1)
+								continue
+							}
+							w.Cover("read-fault-kind/" + faultName(fl))
+							if k == len(a.data) {
+								w.Cover("read-fault/at-end-after-all-data")
 							}
 						}
-						if ok {
-							for bi, cut := range a.carCuts {
-								if cut == dk {
-									// blocks before the cut: bi blocks (cut 0 is after the header)
-									var wantKeys []string
-									seen := map[string]bool{}
-									for _, b := range a.carBlocks[:bi] {
-										ks := ref.CID(b).String()
-										if !seen[ks] {
-											seen[ks] = true
-											wantKeys = append(wantKeys, ks)
+						if k > 0 && k < len(a.data) {
+							w.Distinct(ai, api.name, mode, k)
+						}
+						if got.err != nil {
+							continue
+						}
+						// success: only legitimate for a CAR cut on a section boundary (after the header)
+						legit := false
+						if mode == "cut" && (a.kind == "car" || a.kind == "car64") {
+							dk := k
+							ok := true
+							if a.kind == "car64" {
+								if k%4 != 0 {
+									ok = false
+								} else if dec, err := base64.StdEncoding.DecodeString(string(a.data[:k])); err == nil {
+									dk = len(dec)
+								} else {
+									ok = false
+								}
+							}
+							if ok {
+								for bi, cut := range a.carCuts {
+									if cut == dk {
+										// blocks before the cut: bi blocks (cut 0 is after the header)
+										var wantKeys []string
+										seen := map[string]bool{}
+										for _, b := range a.carBlocks[:bi] {
+											ks := ref.CID(b).String()
+											if !seen[ks] {
+												seen[ks] = true
+												wantKeys = append(wantKeys, ks)
+											}
 										}
-									}
-									sort.Strings(wantKeys)
-									if fmt.Sprint(wantKeys) == fmt.Sprint(got.keys) || (len(wantKeys) == 0 && len(got.keys) == 0) {
-										legit = true
-										w.Cover("car/legit-boundary-cut")
+										sort.Strings(wantKeys)
+										if fmt.Sprint(wantKeys) == fmt.Sprint(got.keys) || (len(wantKeys) == 0 && len(got.keys) == 0) {
+											legit = true
+											w.Cover("car/legit-boundary-cut")
+										}
 									}
 								}
 							}
 						}
-					}
-					if !legit {
-						m := c()
-						m["fault"] = mode
-						m["offset"] = k
-						m["returned_keys"] = got.keys
-						w.Violate(fmt.Sprintf("read/fault-swallowed/%s/%s/%s", mode, api.name, faultPlace(k, len(a.data))),
-							fmt.Sprintf("%s returns success although the stream %s at byte %d of %d", api.name, map[string]string{"err0": "failed (0,err)", "errN": "failed (n>0,err)", "cut": "ended early"}[mode], k, len(a.data)), m)
+						if !legit {
+							m := c()
+							m["fault"] = mode
+							m["fault_error"] = fmt.Sprint(fl)
+							m["offset"] = k
+							m["returned_keys"] = got.keys
+							sig := fmt.Sprintf("read/fault-swallowed/%s/%s/%s", mode, api.name, faultPlace(k, len(a.data)))
+							if fl != nil && fl != errInjected {
+								sig += "/" + faultName(fl)
+							}
+							w.Violate(sig,
+								fmt.Sprintf("%s returns success although the stream %s at byte %d of %d (fault: %v)", api.name, map[string]string{"err0": "failed (0,err)", "errN": "failed (n>0,err)", "cut": "ended early"}[mode], k, len(a.data), fl), m)
+						}
 					}
 				}
 			}
@@ -494,6 +555,24 @@ func writeContainerTo(wr container.Writer, format int, o io.Writer) (int, error)
 	}
 }
 
+func faultName(e error) string {
+	switch {
+	case e == nil || e == errInjected:
+		return "generic"
+	case e == io.ErrUnexpectedEOF:
+		return "unexpected-eof"
+	case e == io.ErrClosedPipe:
+		return "closed-pipe"
+	case e == os.ErrDeadlineExceeded:
+		return "deadline"
+	case e == context.Canceled:
+		return "canceled"
+	case e == io.ErrNoProgress:
+		return "no-progress"
+	}
+	return "wrapped-errno"
+}
+
 func faultPlace(k, n int) string {
 	switch {
 	case k == 0:
@@ -510,12 +589,20 @@ type faultWriter struct {
 	failAt  int // -1: never
 	fired   bool
 	partial bool
+	silent  bool // the short write comes WITHOUT an error (n < len(p), nil)
 }
 
 func (f *faultWriter) Write(p []byte) (int, error) {
 	i := f.calls
 	f.calls++
 	if i == f.failAt {
+		if f.silent {
+			if len(p) == 0 {
+				return 0, nil
+			}
+			f.fired = true
+			return f.buf.Write(p[:len(p)-1-(len(p)-1)/2])
+		}
 		f.fired = true
 		if f.partial && len(p) > 1 {
 			// a short write together with the error
@@ -582,6 +669,29 @@ func c18WriteFaults(w *mon.W, api, desc string, refBytes []byte, f func(io.Write
 			}
 			w.Violate(fmt.Sprintf("write/fault-swallowed/%s/%s-call", api, pos),
 				fmt.Sprintf("%s returns success although Write call %d of %d failed", api, i+1, n), m)
+		}
+	}
+	// a sink that accepts fewer bytes than offered and reports no error (the io.Writer contract
+	// forbids it, a full pipe or a buggy wrapper does it anyway): the output is incomplete, so a
+	// success status is wrong
+	for i := 0; i < n; i++ {
+		fw := &faultWriter{failAt: i, silent: true}
+		c, err := f(fw)
+		w.Eval(1)
+		if !fw.fired {
+			w.Count("write-fault-not-reached", 1)
+			continue
+		}
+		w.Cover("write-short-silent/" + api)
+		w.Distinct(desc, api, "short-write", i)
+		if err == nil {
+			m := cs()
+			m["short_write_call"] = i
+			m["write_calls"] = n
+			m["returned_cid"] = c.String()
+			m["bytes_accepted"] = fw.buf.Len()
+			w.Violate(fmt.Sprintf("write/short-write-swallowed/%s", api),
+				fmt.Sprintf("%s returns success although Write call %d of %d accepted fewer bytes than offered (and reported no error): the output is incomplete", api, i+1, n), m)
 		}
 	}
 	if strings.Contains(api, "Base64") && n < 2 {
